@@ -7,8 +7,16 @@
    (no Prop in computational parts) so that [step]/[run] can be extracted and compared with real
    Python threads driven statement by statement.
 
+   Two program shapes are understood (the translator tools/regen/gen_singleton.py emits whichever
+   the source has):
+     publish-then-initialise   cls._default_instance = cls()                 INewAssign
+                               cls._default_instance.default_initialization() ILoadSelf; <body>
+     initialise-then-publish   instance = cls()                              INewLocal
+                               instance.default_initialization()             <body>   (receiver = the local)
+                               cls._default_instance = instance              IPublishSelf
+
    Not modelled: exceptions raised inside the with-block by the environment (MemoryError,
-   KeyboardInterrupt), re-entrancy (`threading.Lock` is not re-entrant: a thread that acquires
+   KeyboardInterrupt; see Sys/HistoryX.v for the interrupted FIRST initialisation), re-entrancy (`threading.Lock` is not re-entrant: a thread that acquires
    twice blocks for ever, as here), fork. *)
 From SqlModel Require Import Base.
 
@@ -21,6 +29,9 @@ Inductive instr :=
 | IJumpIfInst (target : nat) (* `if cls._default_instance is None:` falls through when None, else jumps *)
 | INewAssign                 (* cls._default_instance = cls() *)
 | ILoadSelf                  (* receiver of `.default_initialization()`: self := cls._default_instance *)
+| INewLocal                  (* <local> = cls(): a fresh object NOT reachable from the shared variable;
+                                self := it (the local is the receiver of `.default_initialization()`) *)
+| IPublishSelf               (* cls._default_instance = <local> *)
 | IClear                     (* self._SQL_REGEX = []; self._keywords = []   (Lexer.clear) *)
 | ISetRegex                  (* self.set_SQL_REGEX(keywords.SQL_REGEX) *)
 | IAddKw (k : nat)           (* self.add_keywords(<k-th dictionary>)  :  self._keywords.append(d) *)
@@ -107,6 +118,14 @@ Definition exec_instr (p : list instr) (st : state) (t : tid) (th : thread) (i :
       mkState (lock st) (Some (length (heap st))) (heap st ++ [fresh_obj])
               (upd (threads st) t (advance th))
   | ILoadSelf => set_thread st t (mkThread (S (pc th)) (inst st) (ret th))
+  | INewLocal =>
+      mkState (lock st) (inst st) (heap st ++ [fresh_obj])
+              (upd (threads st) t (mkThread (S (pc th)) (Some (length (heap st))) (ret th)))
+  | IPublishSelf =>
+      match self th with
+      | Some o => mkState (lock st) (Some o) (heap st) (upd (threads st) t (advance th))
+      | None => set_thread st t (halt p th)            (* UnboundLocalError: the local was never assigned *)
+      end
   | IReturn => set_thread st t (mkThread (length p) (self th) (inst st))
   | IClear | ISetRegex | IAddKw _ => step_obj p st t th i
   end.
@@ -158,23 +177,48 @@ Definition fully_initialised (expected : list nat) (st : state) (o : objid) : Pr
   exists ob, nth_error (heap st) o = Some ob /\ regex_set ob = true /\ kws ob = expected.
 
 (* ---- the structural check the proofs rest on ------------------------------------------------
-   prog = IAcquire; IJumpIfInst r; INewAssign; ILoadSelf; <body>; IRelease(at r); IReturn
+   Two shapes are accepted.  With r = 4 + |body| in both (and |prog| = r + 2 in both):
+     publish-then-initialise (prog_of false body):
+       IAcquire; IJumpIfInst r; INewAssign; ILoadSelf; <body>; IRelease(at r); IReturn
+     initialise-then-publish (prog_of true body):
+       IAcquire; IJumpIfInst r; INewLocal; <body>; IPublishSelf; IRelease(at r); IReturn
    where running <body> sequentially on a fresh object raises nothing and yields a fully
    initialised object.  (Any number/order of IClear/ISetRegex/IAddKw is accepted as long as the
    sequential result is right; a missing lock, a release before the end of the initialisation,
-   or a wrong jump target make the check fail.) *)
-Definition well_locked (expected : list nat) (p : list instr) : bool :=
+   or a wrong jump target make the check fail.)
+   In the first shape the lock is what hides the half-built published object from the other
+   threads; in the second nothing half-built is ever reachable from the shared variable (lock or
+   no lock: SingletonFacts.v, C20_unlocked_new_init_safe) and the lock is needed only to make the
+   initialisation happen once. *)
+Definition prog_of (nw : bool) (body : list instr) : list instr :=
+  IAcquire :: IJumpIfInst (4 + length body)
+    :: (if nw then INewLocal :: body ++ [IPublishSelf; IRelease; IReturn]
+        else INewAssign :: ILoadSelf :: body ++ [IRelease; IReturn]).
+
+Definition body_okb (expected : list nat) (r : nat) (body : list instr) : bool :=
+  Nat.eqb r (4 + length body)
+  && match exec_body body fresh_obj with
+     | Some ob => obj_fullyb expected ob
+     | None => false
+     end.
+
+(* Some false = publish-then-initialise, Some true = initialise-then-publish, None = neither *)
+Definition shape_of (expected : list nat) (p : list instr) : option bool :=
   match p with
   | IAcquire :: IJumpIfInst r :: INewAssign :: ILoadSelf :: rest =>
       match rev rest with
       | IReturn :: IRelease :: rbody =>
-          let body := rev rbody in
-          Nat.eqb r (4 + length body)
-          && match exec_body body fresh_obj with
-             | Some ob => obj_fullyb expected ob
-             | None => false
-             end
-      | _ => false
+          if body_okb expected r (rev rbody) then Some false else None
+      | _ => None
       end
-  | _ => false
+  | IAcquire :: IJumpIfInst r :: INewLocal :: rest =>
+      match rev rest with
+      | IReturn :: IRelease :: IPublishSelf :: rbody =>
+          if body_okb expected r (rev rbody) then Some true else None
+      | _ => None
+      end
+  | _ => None
   end.
+
+Definition well_locked (expected : list nat) (p : list instr) : bool :=
+  match shape_of expected p with Some _ => true | None => false end.
